@@ -43,7 +43,11 @@ func (core *JApiCore) drainCurrentScanner() *jerr.JApiError {
 		}
 
 		if isIncludeKeyword(lexeme) {
-			je = core.processInclude(lexeme)
+			// The directive read before the INCLUDE is complete: it is placed (and
+			// diagnosed) before the included file is entered.
+			if je = core.processCurrentDirective(); je == nil {
+				je = core.processInclude(lexeme)
+			}
 		} else {
 			je = core.next(*lexeme)
 		}
